@@ -274,6 +274,18 @@ def dup_names_risk(shape):
     def runs(vs):
         vs = sorted(vs)
         return sum(1 for i, x in enumerate(vs) if i == 0 or x != vs[i - 1] + 1)
+
+    def pieces(ranges, ex):
+        """number of ranges the library ends up with: overlapping ranges are merged (adjacent ones are not), then every
+        range is split by the excluded values"""
+        rs = sorted([list(r) for r in ranges])
+        merged = []
+        for r in rs:
+            if merged and r[0] <= merged[-1][1]:
+                merged[-1][1] = max(merged[-1][1], r[1])
+            else:
+                merged.append(r)
+        return sum(runs(set(range(r[0], r[1] + 1)) - ex) for r in merged)
     for cp in shape["cps"]:
         ex = set()
         for b in cp.get("ign", []) + cp.get("ill", []):
@@ -292,7 +304,7 @@ def dup_names_risk(shape):
             if b["kind"] == "array":
                 vs = vals_of(b["ranges"]) - ex
                 n = b.get("n", 0)
-                if (n == 0 or n >= len(vs)) and runs(vs) >= 2:
+                if (n == 0 or n >= len(vs)) and pieces(b["ranges"], ex) >= 2:
                     return True
     return False
 
